@@ -63,10 +63,10 @@ __CPROVER_ensures((self->groups_.size > 0 && !(FABS_(delta) < 0.5)) ==> (g_ndgo 
 __CPROVER_ensures((self->groups_.size > 0 && g_solsize == 0) ==> (C_(FN_C64CTOR) == 0 && C_(FN_EXEC) == 0 && C_(FN_EXECTREE) == 0))
 /* clean-up union: options, orientation-dependent fill rule, and the requested kind of result */
 #define CLEAN (self->groups_.size > 0 && g_solsize != 0)
-__CPROVER_ensures(CLEAN ==> (C_(FN_CHECKREV) == 1 && C_(FN_C64CTOR) == 1 &&
-   C_(FN_PRESERVE) == 1 && I_(FN_PRESERVE,0,0) == TOK(FN_C64CTOR,0) && I_(FN_PRESERVE,0,1) == (long)self->preserve_collinear_ &&
-   C_(FN_REVERSE) == 1 && I_(FN_REVERSE,0,0) == TOK(FN_C64CTOR,0) && I_(FN_REVERSE,0,1) == (long)(self->reverse_solution_ != REVERSED) &&
-   C_(FN_ADDSUBJ) == 1 && I_(FN_ADDSUBJ,0,0) == TOK(FN_C64CTOR,0) && I_(FN_ADDSUBJ,0,1) == 777 && C_(FN_ADDCLIP) == 0 && C_(FN_ADDOPEN) == 0))
+__CPROVER_ensures(CLEAN ==> (C_(FN_CHECKREV) == 1 && C_(FN_C64CTOR) == 1))
+__CPROVER_ensures(CLEAN ==> (C_(FN_PRESERVE) == 1 && I_(FN_PRESERVE,0,0) == TOK(FN_C64CTOR,0) && I_(FN_PRESERVE,0,1) == (long)self->preserve_collinear_))
+__CPROVER_ensures(CLEAN ==> (C_(FN_REVERSE) == 1 && I_(FN_REVERSE,0,0) == TOK(FN_C64CTOR,0) && I_(FN_REVERSE,0,1) == (long)(self->reverse_solution_ != REVERSED)))
+__CPROVER_ensures(CLEAN ==> (C_(FN_ADDSUBJ) == 1 && I_(FN_ADDSUBJ,0,0) == TOK(FN_C64CTOR,0) && I_(FN_ADDSUBJ,0,1) == 777 && C_(FN_ADDCLIP) == 0 && C_(FN_ADDOPEN) == 0))
 __CPROVER_ensures((CLEAN && self->solution_tree != NULL) ==> (C_(FN_EXECTREE) == 1 && C_(FN_EXEC) == 0 && I_(FN_EXECTREE,0,0) == TOK(FN_C64CTOR,0) &&
    I_(FN_EXECTREE,0,1) == (long)ClipType_Union && I_(FN_EXECTREE,0,2) == (long)(REVERSED ? FillRule_Negative : FillRule_Positive) && I_(FN_EXECTREE,0,4) == self->solution_tree->tok &&
    SEQ(FN_EXECTREE,0) > SEQ(FN_ADDSUBJ,0) && SEQ(FN_EXECTREE,0) > SEQ(FN_REVERSE,0) && SEQ(FN_EXECTREE,0) > SEQ(FN_PRESERVE,0)))
